@@ -399,6 +399,51 @@ Example C19_ex_reject_on_generated_dir :
   /\ fs_get f "./src/generated" = Some (NOut {| g_project := "primeP"; g_lib := "none"; g_viz := false |}).
 Proof. vm_compute. repeat split; reflexivity. Qed.
 
+(* ---- the build script with its project detection (first of ./ and ../ holding tauri.conf.json,
+   tauri.conf.js or src-tauri) ---- *)
+(* file over default at any document path / typegen.json path, outside C19-9 *)
+Theorem C19_precedence_build_at : forall (f : fs) (tp : option string) (gp : string),
+  kf_build_fallback_at f tp gp = false ->
+  eff_of no_flags (build_config_at f tp gp) = spec_eff_build_at f tp gp.
+Proof. exact build_precedence_at. Qed.
+(* with a detected root, outside C19-9, the run uses exactly the root's file over the defaults *)
+Theorem C19_build_detect_precedence : forall (f : fs) (r : string),
+  build_root f = Some r -> kf_build_fallback_detect f = false ->
+  exists res, run_build_detect f = res /\
+    (res = RNoCommands (spec_eff_build_detect f) f \/ exists f', res = RRun (spec_eff_build_detect f) f').
+Proof. exact build_detect_precedence. Qed.
+(* without a detected root nothing is generated and nothing changes *)
+Theorem C19_build_detect_none : forall f : fs, build_root f = None -> exists e, run_build_detect f = RNoCommands e f.
+Proof. exact build_detect_none. Qed.
+(* run from the project root the detection changes nothing (ties C19_precedence_build to it) *)
+Theorem C19_build_detect_here : forall f : fs, is_root f "" = true -> fs_exists f "tauri.conf.js" = false ->
+  run_build_detect f = run_build f.
+Proof. exact build_detect_here. Qed.
+
+(* the build-script oracle accepts the model wherever it does not demand a refusal *)
+Theorem C19_oracle_build_model : forall f : fs, build_invalid_detect f = false ->
+  build_ok_detect_b f (obs_of_result (run_build_detect f)) = true.
+Proof. exact oracle_build_model. Qed.
+
+(* the init oracles = their Prop-level statements, and the model passes them for every file
+   system and flag set (the generated-files directory must not be the target itself) *)
+Theorem C19_oracle_init_reflect : forall (f : fs) (il : iflags) (bref : json) (o : cli_obs) (after : option json),
+  init_ok_b f il bref o after = true <-> init_ok_P f il bref o after.
+Proof. exact init_ok_b_iff. Qed.
+Theorem C19_oracle_init_file_reflect : forall (f : fs) (il : iflags) (force : bool) (o : cli_obs) (after : option json),
+  init_file_ok_b f il force o after = true <-> init_file_ok_P f il force o after.
+Proof. exact init_file_ok_b_iff. Qed.
+Theorem C19_oracle_init_model : forall (f : fs) (il : iflags),
+  norm (init_generated il) <> norm (init_target il) ->
+  forall bref, (forall d, fs_get f (init_target il) = Some (NDoc (Some d)) -> bref = d) ->
+  init_ok_b f il bref (obs_of_result (run_init f il)) (doc_at (run_init f il) (init_target il)) = true.
+Proof. exact oracle_init_model. Qed.
+Theorem C19_oracle_init_file_model : forall (f : fs) (il : iflags) (force : bool),
+  norm (init_generated il) <> norm (or_else (i_output il) "tauri.conf.json") ->
+  init_file_ok_b f il force (obs_of_result (run_init_file f il force))
+    (doc_at (run_init_file f il force) (or_else (i_output il) "tauri.conf.json")) = true.
+Proof. exact oracle_init_file_model. Qed.
+
 (* ---- deepening round 7: examples *)
 (* the oracles on the example document: accepted for the model's output, within the fuel,
    and not vacuous (a dropped key, a changed array element, wrong settings are refused) *)
@@ -452,6 +497,36 @@ Example C19_ex_init_unwritable :
 Proof. vm_compute. repeat split; try reflexivity. eexists. eexists. split; reflexivity. Qed.
 
 
+(* the build script started one level below the project root: the parent's typegen.json is the
+   configuration file; in an unrelated directory: nothing is generated *)
+Example C19_ex_build_detect :
+  let f := [("projA", NProj); ("../tauri.conf.json", NDoc (Some (JObj [("a", JNum "1")])));
+            ("../typegen.json", NDoc (Some ex_flat))] in
+  build_root f = Some "../" /\ kf_build_fallback_detect f = false
+  /\ e_output (spec_eff_build_detect f) = "./outF" /\ e_force (spec_eff_build_detect f) = true
+  /\ (exists f', run_build_detect f = RRun (spec_eff_build_detect f) f')
+  /\ build_ok_detect_b f (obs_of_result (run_build_detect f)) = true
+  /\ build_invalid_detect f = false
+  /\ build_root [("projA", NProj); ("typegen.json", NDoc (Some ex_flat))] = None
+  /\ is_root [("src-tauri", NProj)] "" = true.
+Proof. vm_compute. repeat split; try reflexivity. eexists. reflexivity. Qed.
+
+(* the init oracles on concrete runs: accepted for the model, and not vacuous *)
+Example C19_ex_init_oracles :
+  let il := {| i_project := Some "./projA"; i_generated := Some "./gen"; i_output := Some "./tauri.conf.json";
+               i_validation := Some "zod"; i_verbose := false; i_visualize := false |} in
+  let ilf := {| i_project := Some "./projA"; i_generated := Some "./gen"; i_output := Some "./typegen.json";
+                i_validation := Some "zod"; i_verbose := false; i_visualize := false |} in
+  norm (init_generated il) <> norm (init_target il)
+  /\ (exists d, fs_get ex_fs (init_target il) = Some (NDoc (Some d))
+        /\ init_ok_b ex_fs il d (obs_of_result (run_init ex_fs il)) (doc_at (run_init ex_fs il) (init_target il)) = true
+        /\ init_ok_b ex_fs il d (obs_of_result (run_init ex_fs il)) (Some d) = false
+        /\ init_ok_b ex_fs il d (ORejected true) (Some d) = false)
+  /\ init_file_ok_b ex_fs ilf false (obs_of_result (run_init_file ex_fs ilf false)) (doc_at (run_init_file ex_fs ilf false) "./typegen.json") = true
+  /\ init_file_ok_b ex_fs ilf false (ORejected true) None = false
+  /\ init_file_ok_b ex_fs ilf false ONoCommands (Some (JObj [])) = false.
+Proof. vm_compute. split; [discriminate|]. split; [eexists; repeat split; reflexivity|]. repeat split; reflexivity. Qed.
+
 Print Assumptions C19_preserve.
 Print Assumptions C19_save_refused.
 Print Assumptions C19_roundtrip.
@@ -489,3 +564,12 @@ Print Assumptions C19_oracle_precedence_reflect.
 Print Assumptions C19_oracle_precedence_model.
 Print Assumptions C19_oracle_precedence_file_reflect.
 Print Assumptions C19_oracle_precedence_file_model.
+Print Assumptions C19_precedence_build_at.
+Print Assumptions C19_build_detect_precedence.
+Print Assumptions C19_build_detect_none.
+Print Assumptions C19_build_detect_here.
+Print Assumptions C19_oracle_build_model.
+Print Assumptions C19_oracle_init_reflect.
+Print Assumptions C19_oracle_init_file_reflect.
+Print Assumptions C19_oracle_init_model.
+Print Assumptions C19_oracle_init_file_model.
